@@ -4,6 +4,7 @@ import (
 	"fmt"
 	"strings"
 	"testing"
+	"time"
 
 	"github.com/cybergarage/go-redis/redis"
 	"verif/sim/resp"
@@ -184,6 +185,11 @@ func runC08(t *testing.T, tape *sim.Tape, tier string) *Outcome {
 	viaRestart := how == 0 || how == 1
 	rotated := how == 1 // generation 1 already had a (different) password
 	cl.Sticky = tape.Draw(4, "sticky")
+	// simulated time passes at seed-chosen moments between the other events (timeouts, deadlines and timers of the
+	// code under test fire against this clock)
+	for i := tape.Draw(4, "nticks"); i > 0; i-- {
+		cl.Ticks = append(cl.Ticks, []time.Duration{50 * time.Millisecond, time.Second, 11 * time.Second, 61 * time.Second, 10 * time.Minute, 3 * time.Hour}[tape.Draw(6, "tick")])
+	}
 	addr := addrOf(plainPort)
 	conns := map[string]*authConn{}
 	var order []*authConn
@@ -221,32 +227,64 @@ func runC08(t *testing.T, tape *sim.Tape, tier string) *Outcome {
 		cl.S.Park("?", "handler:"+call.Method, nil, nil)
 	}
 
+	// configuration history: the generations of the server before the one under test, each with no password,
+	// the former password or already the final one; the server is restarted between them
+	var history []string
 	if viaRestart {
-		// generation 1: no password (or, rotation, another password); a client talks, then the password is set and the server restarted
-		if rotated {
-			cl.Srv.SetRequirePass(formerPassword)
-			o.stat("password_rotated_by_restart", 1)
+		history = [][]string{{"none"}, {"former"}, {"final", "none"}, {"former", "none"}, {"final", "former"}, {"none", "former"}, {"none", "final", "none"}}[tape.Draw(7, "history")]
+		if !rotated {
+			history = history[:1]
+			history[0] = "none"
 		}
+	}
+	setPw := func(which string) {
+		switch which {
+		case "none":
+			cl.Srv.RemoveRequirePass()
+		case "former":
+			cl.Srv.SetRequirePass(formerPassword)
+		default:
+			cl.Srv.SetRequirePass(pw)
+		}
+	}
+	if viaRestart {
+		setPw(history[0])
 		if err := cl.startServer(); err != nil {
 			o.violate("harness:start", "Start failed: %v", err)
 			cl.finish()
 			return o
 		}
-		g1items := [][]byte{resp.Cmd("SET", "g1", "v"), resp.Cmd("GET", "g1")}
-		if rotated {
-			g1items = append([][]byte{resp.Cmd("AUTH", formerPassword)}, g1items...)
+		for gi, which := range history {
+			if gi > 0 {
+				setPw(which)
+				cl.lifecycle("Restart")
+				cl.settle(400)
+			}
+			// a client of that generation talks (and authenticates with that generation's password)
+			items := [][]byte{resp.Cmd("SET", fmt.Sprintf("g%d", gi), "v"), resp.Cmd("GET", fmt.Sprintf("g%d", gi))}
+			switch which {
+			case "former":
+				items = append([][]byte{resp.Cmd("AUTH", formerPassword)}, items...)
+			case "final":
+				items = append([][]byte{resp.Cmd("AUTH", pw)}, items...)
+			}
+			g := cl.addClient(fmt.Sprintf("gen%d", gi), addr, items)
+			g.Lockstep = true
+			cl.run(400, nil, nil)
 		}
-		g1 := cl.addClient("gen1", addr, g1items)
-		g1.Lockstep = true
-		cl.run(400, nil, nil)
 		cl.Srv.SetRequirePass(pw)
 		cl.lifecycle("Restart")
 		cl.settle(400)
 		o.stat("password_set_by_restart", 1)
-		if len(cl.lifeErr) < 2 || cl.lifeErr[1] != nil {
-			o.violate("harness:restart", "Restart failed: %v", cl.lifeErr)
-			cl.finish()
-			return o
+		if len(history) > 1 || history[0] != "none" {
+			o.stat("password_rotated_by_restart", 1)
+		}
+		for i, err := range cl.lifeErr {
+			if err != nil {
+				o.violate("harness:restart", "lifecycle call %d failed: %v", i, cl.lifeErr)
+				cl.finish()
+				return o
+			}
 		}
 	} else {
 		cl.Srv.SetRequirePass(pw)
@@ -368,7 +406,7 @@ func init() {
 	register(&Check{
 		ID: "C08", Bubble: true, Run: runC08,
 		Runs:   map[string]int{"quick": 30000, "thorough": 1000000},
-		Rule:   "a case is one run of the full server with a required password (set before Start, or by Restart after a generation without password or with another password, which then is one of the wrong candidates) and 1..3 connections (in a quarter of the runs the TLS port is open too and each connection goes through it with probability 1/2, as a real crypto/tls client with an accepted certificate) each sending 1..8 (thorough ..16) requests over {AUTH with the exact password, with each dictionary candidate ('' , prefixes, extension, case swap, NUL/CRLF/space variants, doubled), null/missing argument, two-argument forms, SELECT, CONFIG SET/GET, PING/ECHO, data commands} under a seeded request- and byte-granularity interleaving; a per-connection authorization model is checked inside every handler call and over every reply; distinct = distinct event-log hashes; all runs non-trivial",
+		Rule:   "a case is one run of the full server with a required password (set before Start, or by Restart after one to three earlier generations each without password, with another password - which then is one of the wrong candidates - or already with the final one) and 1..3 connections (in a quarter of the runs the TLS port is open too and each connection goes through it with probability 1/2, as a real crypto/tls client with an accepted certificate) each sending 1..8 (thorough ..16) requests over {AUTH with the exact password, with each dictionary candidate ('' , prefixes, extension, case swap, NUL/CRLF/space variants, doubled), null/missing argument, two-argument forms, SELECT, CONFIG SET/GET, PING/ECHO, data commands} under a seeded request- and byte-granularity interleaving; a per-connection authorization model is checked inside every handler call and over every reply; distinct = distinct event-log hashes; all runs non-trivial",
 		Real:   []string{"redis.Server Start (authenticator registration), accept loop, connection goroutines, AUTH executor, Server.Auth, auth.AuthManager, ClearTextPasswordAuthenticator, gate in executeCommand"},
 		Stub:   []string{"network: simulated", "user command handler: recording double (parks at entry)"},
 		Assume: []string{"two-argument AUTH with user '' or 'default' and the exact password may succeed or fail", "QUIT before authorization is not generated"},
